@@ -188,12 +188,12 @@ pub fn check(tier: Tier) -> Check {
             "datagrams reach the node tie-free (no two in the same millisecond, none in a tick where one of its query timers fires)",
         ],
         deciding: vec!["C02"],
-        streams: vec![Stream::new("omniscient", tier.pick(1600, 30_000), scenario)],
+        streams: vec![Stream::new("omniscient", tier.pick(9_600, 30_000), scenario)],
         require: vec![
-            ("searches_with_premises_checked", tier.pick(1500, 30_000)),
-            ("announce_targets_checked", tier.pick(6000, 120_000)),
-            ("announce_tokens_checked", tier.pick(6000, 120_000)),
-            ("stream_items_checked", tier.pick(10_000, 200_000)),
+            ("searches_with_premises_checked", tier.pick(9_000, 30_000)),
+            ("announce_targets_checked", tier.pick(36_000, 120_000)),
+            ("announce_tokens_checked", tier.pick(36_000, 120_000)),
+            ("stream_items_checked", tier.pick(60_000, 200_000)),
         ],
         exhaustive: false,
     }
